@@ -3,8 +3,9 @@
 (* (all five states, duplicate and infinite values, constraint classes none / feasible / violating,  *)
 (* PRUNED and FAIL trials that carry temptingly good values) and every direction vector of length    *)
 (* Dim is one reachable `judged' state.  The invariants are theorems about the oracle itself: the    *)
-(* specification has to be consistent before it judges code.  The number of Judge steps is the       *)
-(* number of (history, directions) inputs, which the harness compares with what it enumerated.       *)
+(* specification has to be consistent before it judges code.  The distinct states are the empty     *)
+(* history, one per history built by AddTrial and one per (history, directions) input reached by     *)
+(* Judge; the harness derives the number of inputs from that and compares it with what it enumerated.*)
 EXTENDS Best
 CONSTANTS Dim, MaxN, MaxC, InfMode      \* InfMode: 0 = finite only, 1 = with -inf, 2 = with -inf and +inf
 
